@@ -171,7 +171,10 @@ def stall_phase(ctx, exe, key, findings):
     served_at = None
     deadline = 2.0 * ((len(offs) + 1) // 2) + 6.0
     while time.time() - t0 < deadline:
-        c = rig.canary(d.sock)
+        try:
+            c = rig.canary(d.sock)
+        except rig.DaemonUnresponsive:
+            c = "no reply yet (workers held by stalled clients)"     # expected here until the stalled clients time out
         if c is None:
             served_at = time.time() - t0
             break
